@@ -196,3 +196,42 @@ def dec_lit(T, d):
 
 def dec_expr(codec, c, data, d_lit):
     return 'dec_code %s (decode %s (Some %s) %s) %s' % (c.cty, codec, c.cty, cbytes(data), d_lit)
+
+
+def leaf_boundary_cases(ctx, every=1):
+    """Systematic boundary values of the simple types - what random drawing only hits by luck: two's-complement
+    edges of INTEGER at every octet count, REAL mantissa x exponent edges (sign pad octets of the exponent at
+    +-2^7, +-2^15; mantissa octet boundaries), OID arcs at the base-128 digit boundaries and the 40*X+Y rule,
+    BIT STRING lengths 0..17, string lengths at the short/long length-octet boundary; each plain and under
+    one random tagging.  every=k keeps each k-th case (quick tiers)."""
+    r = ctx.rng
+    vals = []
+    for k in range(1, 10):
+        for z in (2 ** (8 * k - 1) - 1, 2 ** (8 * k - 1), -2 ** (8 * k - 1), -2 ** (8 * k - 1) - 1, 2 ** (8 * k) - 1, 2 ** (8 * k), -2 ** (8 * k)):
+            vals.append((('int',), ('i', z)))
+    for z in (0, 1, -1):
+        vals.append((('int',), ('i', z))); vals.append((('enum',), ('i', z)))
+    for e in (-32769, -32768, -32767, -257, -256, -255, -130, -129, -128, -127, -1, 0, 1, 126, 127, 128, 129, 255, 256, 32767, 32768):
+        for m in (1, -1, 3, 255, 256, -65535):
+            vals.append((('real',), ('real', (m, 2, e))))
+    for arcs in ((0, 0), (0, 39), (1, 0), (1, 39), (2, 0), (2, 39), (2, 40), (2, 47), (2, 48), (2, 999), (2, 16303), (2, 16304),
+                 (1, 2, 127), (1, 2, 128), (1, 2, 16383), (1, 2, 16384), (1, 2, 2097151), (1, 2, 2097152), (1, 2, 2 ** 32), (1, 2, 2 ** 64), (1, 2, 0, 0, 0)):
+        vals.append((('oid',), ('oid', arcs)))
+    for n in range(0, 18):
+        vals.append((('bits',), ('bits', tuple((i * 5 + n) % 3 == 0 and 1 or 0 for i in range(n)))))
+    for n in (0, 1, 126, 127, 128, 129, 255, 256):
+        vals.append((('octs',), ('o', bytes((i + n) % 256 for i in range(n)))))
+    vals.append((('bool',), ('b', True))); vals.append((('bool',), ('b', False))); vals.append((('null',), ('null',)))
+    out = []
+    for i, (T, v) in enumerate(vals):
+        if every > 1 and (i + ctx.seed) % every:
+            continue
+        tagged = r.choice([('imp', (r.choice([64, 128, 192]), 0, r.choice([0, 30, 31, 127, 128, 16384])), T),
+                           ('exp', (r.choice([64, 128, 192]), 0, r.choice([0, 30, 31, 127, 128, 16384])), T)])
+        for TT in (T, tagged):
+            try:
+                out.append(Case(TT, v))
+                ctx.stats['boundary:' + T[0]] += 1
+            except Exception:
+                ctx.stats['boundary_unbuildable'] += 1
+    return out
